@@ -358,6 +358,25 @@ def check_nullable_deref(chk, repo):
     chk.need('R09.4', n, 3, 'truth-tested results of may-be-None calls')
 
 
+def check_reader_raises(chk, repo):
+    """Which RING error a reader method raises, and under which conditions
+    on which values (a bond looked up with the right pair of indices, a label
+    found in the right table), is compared with the reviewed reference --
+    only the raise structure, not the query that is built (C08/C16)."""
+    from .. import reviewed
+    n = 0
+    for rel, cname in ((MQR, 'MolQueryReader'), (RQR, 'ReactionQueryReader')):
+        for f in repo.cls(rel, cname).body:
+            if isinstance(f, ast.FunctionDef) and any(
+                    isinstance(x, ast.Raise) for x in ast.walk(f)):
+                n += 1
+                reviewed.check(
+                    chk, 'R09.4', repo, rel, '%s.%s' % (cname, f.name),
+                    '%s.%s raises its RING errors under the reviewed '
+                    'conditions' % (cname, f.name), mode='raises')
+    chk.need('R09.4', n, 15, 'reader methods that raise')
+
+
 def check_implicit_raisers(chk, repo):
     """list.index and subscripts of name tables fed by the input text must
     sit under a handler that catches what they raise, or under a membership
@@ -616,14 +635,21 @@ def check_addbond(chk, repo):
                                     asg.value.func.attr == 'AddAtom':
                                 fresh = True
                 guarded = False
+                self_guard = False
                 i1, i2 = src(c.args[0]), src(c.args[1])
                 for t in ast.walk(fn):
                     if isinstance(t, ast.If) and t.lineno < c.lineno \
                             and t.body and isinstance(t.body[-1], ast.Raise):
                         tt = src(t.test).replace(' ', '')
-                        if ('%s==%s' % (i1, i2) in tt or '%s==%s' % (
-                                i2, i1) in tt) and 'GetBondBetweenAtoms' in tt:
-                            guarded = True
+                        if '%s==%s' % (i1, i2) in tt or '%s==%s' % (
+                                i2, i1) in tt:
+                            self_guard = True
+                            if 'GetBondBetweenAtoms' in tt:
+                                guarded = True
+                # a fresh atom has no bonds yet, but the label it is bonded
+                # to is looked up after its own label has been recorded: the
+                # two indices can still be equal
+                fresh = fresh and self_guard
                 p = c
                 while p is not None and p is not fn:
                     par = getattr(p, '_parent', None)
@@ -642,7 +668,8 @@ def check_addbond(chk, repo):
                             'RuntimeError) is rejected as a RING reader '
                             'error first' % fn.name
                        if not fresh else
-                       '%s bonds an atom it has just added' % fn.name)
+                       '%s bonds an atom it has just added, and rejects a '
+                       'bond to its own label' % fn.name)
     chk.need('R09.4', n, 2, 'bond-adding call sites')
 
 
@@ -657,6 +684,7 @@ def run(chk, repo, tier):
     check_refs(chk, repo)
     check_implicit_raisers(chk, repo)
     check_nullable_deref(chk, repo)
+    check_reader_raises(chk, repo)
     check_shapes(chk, repo, enhanced, 'R09.7')
     # R16.1-like precondition of the shape interpretation: tokens compare
     # with strings through __eq__
